@@ -7,6 +7,7 @@
  *   mixed     pooled writers and pooled sorters from different threads on one pool
  *   readers   N threads iterating / querying / seeking one open reader through their own iterators
  *   single    one caller thread, several pooled writers and a pooled sorter on one pool (the pool's own handoffs)
+ *   abandon   pooled sorters with dispatched chunks destroyed without ever being iterated or written
  * Every scenario checks its functional result too (files read back completely, sorter output count).
  * ThreadSanitizer reports are counted by the runtime (TSAN_OPTIONS=exitcode=66).
  */
@@ -173,6 +174,28 @@ int main(int argc, char **argv) {
 		for (int i = 0; i < n; i++) pthread_join(th[i], NULL);
 		mtbl_reader_destroy(&shared_reader);
 		unlink(path);
+	} else if (!strcmp(sc, "abandon")) {
+		pool = mtbl_threadpool_init(2);
+		for (int round = 0; round < 4; round++) {
+			struct mtbl_sorter_options *o = mtbl_sorter_options_init();
+			mtbl_sorter_options_set_max_memory(o, 2000);
+			mtbl_sorter_options_set_temp_dir(o, dir);
+			mtbl_sorter_options_set_merge_func(o, merge_cat, NULL);
+			mtbl_sorter_options_set_threadpool(o, pool);
+			struct mtbl_sorter *s = mtbl_sorter_init(o);
+			mtbl_sorter_options_destroy(&o);
+			for (int i = 0; i < 300; i++) {
+				char key[32]; uint8_t val[24];
+				snprintf(key, sizeof key, "a%04d", (i * 7) % 101);
+				memset(val, i, sizeof val);
+				mtbl_res r = mtbl_sorter_add(s, (uint8_t *)key, strlen(key), val, sizeof val);
+				assert(r == mtbl_res_success);
+			}
+			if (round == 1) usleep(20000);
+			if (round == 2) usleep(300000);
+			mtbl_sorter_destroy(&s);
+		}
+		mtbl_threadpool_destroy(&pool);
 	} else if (!strcmp(sc, "single")) {
 		pool = mtbl_threadpool_init(3);
 		pthread_barrier_init(&bar, NULL, 1);
